@@ -1,10 +1,10 @@
-(* Proofs/RewireRefuted.v — two places where the property text is FALSE of the (faithful) model, with concrete
-   witnesses that replay on the implementation:
-   (1) the four undirected engine routines on a symmetric input with a NON-EMPTY DIAGONAL: `np.where(np.tril(R))`
-       lists the self-connection (a,a) as an edge, the four-distinct test lets it through (a = b is not tested), and
-       `R[d,a] = R[b,a]` then reads the cell `R[a,b] = 0` has just cleared: the output is asymmetric and a degree changes;
-   (2) randomize_graph_partial_und with an ASYMMETRIC mask: only B[a,d] and B[c,b] are tested, the mirrored cells
-       (d,a), (b,c) are filled as well. *)
+(* Proofs/RewireRefuted.v — (1) regression example for the repaired defect: the undirected engine routines on a symmetric
+   input with a NON-EMPTY DIAGONAL.  Up to /repo 9391a5f `np.where(np.tril(R))` listed the self-connection (a,a) as an edge
+   and the output could be asymmetric with a changed degree (the former C01_und_selfloop_refuted); since fabf520 the edge list
+   is the strict lower triangle, the general theorems (Proofs/RewireDiag.v, C01_run_caller without an empty-diagonal
+   hypothesis) cover such input, and the recorded run below shows they are not vacuous there.
+   (2) Where the property text is still FALSE of the (faithful) model: randomize_graph_partial_und with an ASYMMETRIC mask:
+   only B[a,d] and B[c,b] are tested, the mirrored cells (d,a), (b,c) are filled as well. *)
 From Coq Require Import ZArith List Arith Bool Lia QArith.
 From BCT Require Import Base.Mat Base.ListX Model.Rewire Proofs.RewireSwap Proofs.RewireInv Proofs.RewireGuards.
 Import ListNotations.
@@ -18,44 +18,31 @@ Proof.
   assert (x = y) by lia. subst. reflexivity.
 Qed.
 
-(* the 6-ring with self-connections at nodes 0 and 3 *)
+(* the 6-ring with self-connections at nodes 0 (weight 5) and 3 (weight -2) *)
 Definition ring6_loops : mat Z :=
-  symm (of_rows 0 [[1;1;0;0;0;1];[1;0;1;0;0;0];[0;1;0;1;0;0];[0;0;1;1;1;0];[0;0;0;1;0;1];[1;0;0;0;1;0]]).
+  symm (of_rows 0 [[5;1;0;0;0;1];[1;0;1;0;0;0];[0;1;0;1;0;0];[0;0;1;-2;1;0];[0;0;0;1;0;1];[1;0;0;0;1;0]]).
 
-(* randmio_und(ring6_loops, itr=1, seed=317) of the implementation, replayed: the run returns (8 rewirings, every
-   draw consumed), the result has R[4,3] = 1 but R[3,4] = 0, and node 3 has lost a connection *)
-Theorem und_selfloop_refuted :
-  exists (R0 : mat Z) (s0 : stream) (res : result),
-    (forall x y, R0 x y = R0 y x) /\
-    run_routine Randmio_und 6 R0 1 None s0 = Done res /\ r_left res = O /\
-    r_out res 4%nat 3%nat <> r_out res 3%nat 4%nat /\
-    outdeg 6 (r_out res) 3 <> outdeg 6 R0 3.
+(* randmio_und(ring6_loops, itr=1, seed=317) of the repaired implementation, replayed: k = 6 edges (the two
+   self-connections are not in the list), five rewirings, every draw consumed; the result is symmetric, node 3 keeps its
+   degree, both self-connections are where they were *)
+Example und_selfloop_regression :
+  exists (res : result),
+    (forall x y, ring6_loops x y = ring6_loops y x) /\
+    run_routine Randmio_und 6 ring6_loops 1 None
+      [DInt 2; DInt 3; DInt 3; DInt 2; DInt 4; DInt 4; DInt 0; DInt 4; DInt 5; DInt 4; DInt 1;
+       DFlt (341786159042917#4503599627370496)%Q; DInt 4; DInt 1; DFlt (690379919946293#4503599627370496)%Q; DInt 5; DInt 0;
+       DFlt (8724502045028273#9007199254740992)%Q; DInt 1; DInt 3; DFlt (2348061004603971#9007199254740992)%Q; DInt 2; DInt 2;
+       DInt 1; DInt 2; DInt 3; DInt 1; DInt 4; DFlt (986956410783429#9007199254740992)%Q; DInt 5; DInt 5; DInt 3;
+       DFlt (7735993462547449#9007199254740992)%Q; DInt 4; DInt 4; DInt 2; DFlt (8270051156263119#9007199254740992)%Q]
+      = Done res /\ r_eff res = 5%nat /\ r_left res = O /\
+    r_out res 0%nat 0%nat = 5 /\ r_out res 3%nat 3%nat = -2 /\
+    outdeg 6 (r_out res) 3 = outdeg 6 ring6_loops 3.
 Proof.
-  exists ring6_loops.
-  exists [DInt 7; DInt 2; DFlt (6541948403153603#9007199254740992)%Q; DInt 3; DInt 6; DFlt (1298727859311029#2251799813685248)%Q;
-          DInt 4; DInt 4; DInt 0; DFlt (2186871891104597#9007199254740992)%Q; DInt 5; DInt 4; DInt 6; DInt 1; DInt 6; DInt 2;
-          DFlt (1836661729906849#9007199254740992)%Q; DInt 7; DInt 5; DFlt (211272780533021#281474976710656)%Q; DInt 6; DInt 7;
-          DInt 7; DInt 6; DInt 7; DInt 0; DFlt (8724502045028273#9007199254740992)%Q; DInt 1; DInt 3;
-          DFlt (2348061004603971#9007199254740992)%Q; DInt 6; DInt 6; DInt 2; DFlt (3085800870382869#9007199254740992)%Q].
   match goal with |- exists res, _ /\ ?run = _ /\ _ =>
     let v := eval vm_compute in (outcome_result run) in
     match v with Some ?r => exists r | _ => fail "the run does not return" end end.
   split; [intros x y; apply symm_sym|].
-  split; [vm_compute; reflexivity|].
-  split; [vm_compute; reflexivity|].
-  split; vm_compute; discriminate.
-Qed.
-
-(* the same at the level of one swap: with a = b (a self-connection picked as first edge) the mirrored writes of the
-   undirected swap destroy symmetry *)
-Theorem und_selfloop_swap_refuted :
-  exists (R : mat Z) (a b c d : nat),
-    (forall x y, R x y = R y x) /\ a = b /\ four_ok a b c d = true /\ R a b <> 0 /\ R c d <> 0 /\ R a d = 0 /\ R c b = 0 /\
-    swap_und R a b c d d a <> swap_und R a b c d a d.
-Proof.
-  exists ring6_loops, 0%nat, 0%nat, 3%nat, 2%nat.
-  split; [intros x y; apply symm_sym|]. split; [reflexivity|]. split; [reflexivity|].
-  repeat split; vm_compute; discriminate.
+  repeat split; vm_compute; reflexivity.
 Qed.
 
 (* (2) one accepted swap under a mask that marks only the cell (3,0): the swap 0-1, 2-3 -> 0-3, 2-1 passes the mask
